@@ -145,7 +145,7 @@ var nsPrefixes = []string{"", "", "", "ns", "p"}
 
 // hostile value alphabet (section 3.1 of DESIGN.md); no carriage return
 var textAlphabet = []string{"a", "b", "Z", "1", "0", ".", "-", "+", "e", " ", " ", "\t", "\n", "&", "<", ">", "\"", "'", "é", "世",
-	"true", "false", "TRUE", "t", "NaN", "Inf", "1.5", "1e3", "0x1p-2", "&amp;", "&#x41;", "&lt;", "]]>", "]]", "<![CDATA[", "#", ":", "{", "}", "[", "]", "\\", "\\u003c", "=", "/", "<!--", "?>"}
+	"true", "false", "TRUE", "t", "NaN", "Inf", "1.5", "1e3", "0x1p-2", "&amp;", "&#x41;", "&lt;", "]]>", "]]", "<![CDATA[", "#", ":", "{", "}", "[", "]", "\\", "\\u003c", "=", "/", "<!--", "?>", "\u00a0", "\u3000", "\u2003", "\u0085", "\u00a0"}
 
 func genText(t *rapid.T, label string) string {
 	n := rapid.IntRange(1, 6).Draw(t, label+"n")
@@ -165,9 +165,9 @@ type XGen struct {
 	MixedText  bool // text may stand at any position among child elements (C01); else only before them (C04)
 	Extras     bool // comments, processing instructions, directives (C04)
 	Namespaces bool
-	Wide       bool                                // occasional element with 33-80 children
+	Wide       bool                                  // occasional element with 33-80 children
 	TextGen    func(t *rapid.T, label string) string // leaf and attribute value generator
-	NoBlankTxt bool                                // text values must not be blank after trimming (always true here)
+	NoBlankTxt bool                                  // text values must not be blank after trimming (always true here)
 }
 
 func (g XGen) text(t *rapid.T, label string) string {
@@ -250,10 +250,22 @@ func (g XGen) Elem(t *rapid.T, depth int) *XElem {
 		}
 		return XItem{Kind: kText, Text: s, Style: rapid.SampledFrom([]int{0, 0, 0, 1, 2}).Draw(t, "style")}
 	}
+	leafExtras := func() {
+		// a comment / PI / directive may also stand in an element that has no child elements
+		if g.Extras && rapid.IntRange(0, 3).Draw(t, "leafextra") == 0 {
+			for _, k := range []int{kComment, kProcInst, kDirective} {
+				if rapid.IntRange(0, 2).Draw(t, "leafextrakind") == 0 {
+					e.Items = append(e.Items, g.genExtra(t, k))
+				}
+			}
+		}
+	}
 	switch kind {
 	case 0: // empty
+		leafExtras()
 	case 1: // text only
 		e.Items = append(e.Items, textItem("text"))
+		leafExtras()
 	default:
 		nc := rapid.IntRange(1, 4).Draw(t, "nchildren")
 		wide := g.Wide && depth >= 1 && rapid.IntRange(0, 39).Draw(t, "wide") == 0
